@@ -1,0 +1,91 @@
+//go:build verif
+
+// Contracts for package chainexchange, read by /verif/govc. Comments only.
+
+package chainexchange
+
+// Admission: the only return of ValidationAccept comes after every check passed.
+//@ func (*PubSubChainExchange).validatePubSubMessage
+//@   property C18
+//@   modifies auto
+//@   maypanic
+//@   at return 0
+//@     before[accept_only_after_the_timestamp_check] arg(0) == pubsub.ValidationAccept ==> dominatedBy(Now, 2)
+//@   at Now 2
+//@     before[decodable_non_empty_well_formed] res(Decode, 1) == nil && !res(IsZero, 1) && res(Validate, 1) == nil
+//@     before[current_or_allowed_future_instance] cmsg.Instance >= res(progress, 1).ID
+//@          && (res(progress, 1).ID + p.maxInstanceLookahead <= 18446744073709551615 ==> cmsg.Instance <= res(progress, 1).ID + p.maxInstanceLookahead)
+//@     before[base_agrees_with_the_current_instances_input] res(progress, 1).Input != nil && cmsg.Instance == res(progress, 1).ID ==> res(Equal, 1)
+//@   at return 7
+//@     before[timestamp_inside_the_window] arg(0) == pubsub.ValidationAccept && lowerBound <= cmsg.Timestamp && cmsg.Timestamp <= now
+//@          && now == res(UnixMilli, 1) && (res(Milliseconds, 1) >= 0 && now >= 0 ==> lowerBound == now - res(Milliseconds, 1))
+
+// An admitted chain and every prefix of it is cached under its own key: into the wanted cache where the key is
+// wanted (placeholder), otherwise into the discovered cache.
+//@ func (*PubSubChainExchange).cacheAsDiscoveredChain
+//@   property C18
+//@   harness harness/chainexchange_wanted_test.go
+//@   modifies auto
+//@   maypanic
+//@   at AllPrefixes 1
+//@     before[caches_of_the_messages_instance] argOf(getChainsWantedAt, 1, 2) == cmsg.Instance && argOf(getChainsDiscoveredAt, 1, 2) == cmsg.Instance
+//@          && wanted == res(getChainsWantedAt, 1) && discovered == res(getChainsDiscoveredAt, 1)
+//@   at Peek 1
+//@     before[wanted_keys_are_looked_up_in_the_wanted_cache] arg(0) == res(getChainsWantedAt, 1) && arg(1) == res(Key, 1) && prefix == allPrefixes[i]
+//@   at ContainsOrAdd 1
+//@     before[unsolicited_prefix_goes_to_the_discovered_cache_under_its_key] arg(0) == res(getChainsDiscoveredAt, 1) && arg(1) == res(Key, 1) && arg(2).chain == prefix && !res(Peek, 1, 1)
+//@   at Add 2
+//@     before[a_wanted_placeholder_is_replaced_by_the_chain] arg(0) == res(getChainsWantedAt, 1) && arg(1) == res(Key, 1) && arg(2).chain == prefix && res(Peek, 1, 1)
+//@   at loopback 1
+//@     before[every_prefix_is_visited_longest_first] i == prev(i) - 1 && prev(i) >= 0 && prev(i) < len(allPrefixes)
+//@   loop 1
+//@     invariant i < len(allPrefixes)
+//@   at return 0
+//@     before[stops_only_after_the_last_prefix_or_on_cancellation] dominatedBy(AllPrefixes, 1) && (i < 0 || res(Err, 1) != nil)
+
+//@ func (*PubSubChainExchange).cacheAsWantedChain
+//@   property C18
+//@   modifies auto
+//@   maypanic
+//@   at Peek 1
+//@     before[own_chains_go_to_the_wanted_cache] arg(0) == res(getChainsWantedAt, 1) && arg(1) == res(Key, 1) && prefix == allPrefixes[i] && argOf(getChainsWantedAt, 1, 2) == cmsg.Instance
+//@   at Add 1
+//@     before[each_prefix_is_stored_under_its_key] arg(0) == res(getChainsWantedAt, 1) && arg(1) == res(Key, 1) && arg(2).chain == prefix
+//@   at loopback 1
+//@     before[every_prefix_is_visited_longest_first] i == prev(i) - 1 && prev(i) >= 0 && prev(i) < len(allPrefixes)
+//@   loop 1
+//@     invariant i < len(allPrefixes)
+
+// Lookup: wanted first, then promotion from discovered, else a placeholder that marks the key as wanted.
+//@ func (*PubSubChainExchange).GetChainByInstance
+//@   property C18
+//@   modifies auto
+//@   maypanic
+//@   at Get 1
+//@     before[looks_in_the_wanted_cache_of_that_instance_under_the_requested_key] arg(0) == res(getChainsWantedAt, 1) && argOf(getChainsWantedAt, 1, 2) == instance && arg(1) == key
+//@   at Get 2
+//@     before[then_in_the_discovered_cache_of_that_instance] arg(0) == res(getChainsDiscoveredAt, 1) && argOf(getChainsDiscoveredAt, 1, 2) == instance && arg(1) == key
+//@   at Add 1
+//@     before[a_discovered_chain_that_is_asked_for_moves_to_the_wanted_cache] arg(0) == res(getChainsWantedAt, 1) && arg(1) == key && arg(2) == res(Get, 2, 0) && res(Get, 2, 1)
+//@   at Remove 1
+//@     before[and_leaves_the_discovered_cache_only_afterwards] arg(0) == res(getChainsDiscoveredAt, 1) && arg(1) == key && dominatedBy(Add, 1)
+//@   at ContainsOrAdd 1
+//@     before[an_unknown_key_is_remembered_as_wanted] arg(0) == res(getChainsWantedAt, 1) && arg(1) == key && arg(2) == chainPortionPlaceHolder && !res(Get, 2, 1)
+//@   at return 0
+//@     before[a_hit_returns_what_is_cached_under_the_requested_key] arg(1) ==> (arg(0) == res(Get, 1, 0).chain && res(Get, 1, 1)) || (arg(0) == res(Get, 2, 0).chain && res(Get, 2, 1))
+
+// Pruning removes exactly the instances below the given one, in both caches.
+//@ func (*PubSubChainExchange).RemoveChainsByInstance
+//@   property C18
+//@   modifies auto
+//@   maypanic
+//@   ensures[wanted_instances_below_are_gone_the_others_stay] forall(uint64(k), has(p.chainsWanted, k) == (old(has(p.chainsWanted, k)) && k >= instance))
+//@   ensures[discovered_instances_below_are_gone_the_others_stay] forall(uint64(k), has(p.chainsDiscovered, k) == (old(has(p.chainsDiscovered, k)) && k >= instance))
+//@   loop 1
+//@     invariant p.chainsWanted == old(p.chainsWanted) && p.chainsDiscovered == old(p.chainsDiscovered)
+//@     invariant forall(uint64(k), has(p.chainsWanted, k) == (old(has(p.chainsWanted, k)) && (k >= instance || !visited(k))))
+//@     invariant forall(uint64(k), has(p.chainsDiscovered, k) == old(has(p.chainsDiscovered, k)))
+//@   loop 2
+//@     invariant p.chainsWanted == old(p.chainsWanted) && p.chainsDiscovered == old(p.chainsDiscovered)
+//@     invariant forall(uint64(k), has(p.chainsWanted, k) == (old(has(p.chainsWanted, k)) && k >= instance))
+//@     invariant forall(uint64(k), has(p.chainsDiscovered, k) == (old(has(p.chainsDiscovered, k)) && (k >= instance || !visited(k))))
